@@ -91,7 +91,35 @@ def make_tamper(alter, plan, state: dict):
         return rpce.build_response(rpce.ndr64_getkey_response(env, hr), ctx_id=0, call_id=pdu["call_id"] if pdu else 1)
 
     def tamper(conn, idx, data):
-        if kind == "connect-flap":
+        if kind == "ntlm-flags":
+            # on-path adversary in the (unauthenticated) handshake: bits of NegotiateFlags in the NTLM CHALLENGE carried by the
+            # bind_ack are cleared (SEAL, SIGN, KEY_EXCH ...); from then on the adversary answers in the server's place:
+            # alter_context_resp without a token, then its own cleartext Response
+            if conn.port == 135 or len(data) < 16:
+                return None
+            if data[2] == rpce.BIND_ACK and not state.get("applied"):
+                k = data.find(b"NTLMSSP\x00\x02\x00\x00\x00")
+                if k < 0:
+                    return None
+                b = bytearray(data)
+                flags = struct.unpack("<I", b[k + 20 : k + 24])[0] & ~alter[2] & 0xFFFFFFFF
+                b[k + 20 : k + 24] = struct.pack("<I", flags)
+                state["applied"] = True
+                state["ack"] = rpce.parse_pdu(data)
+                return bytes(b)
+            if state.get("applied") and data[2] in (rpce.ALTER_CONTEXT_RESP, rpce.FAULT, rpce.BIND_NAK, rpce.RESPONSE):
+                reqs = [r for r in rpce.split_stream(bytearray(b"".join(conn.tx_log)))]
+                last = reqs[-1] if reqs else None
+                call_id = struct.unpack("<I", data[12:16])[0]
+                if last is not None and last[2] == rpce.REQUEST:
+                    state["answered_request"] = True
+                    return adv_response(conn, {"call_id": call_id})
+                a = state["ack"]
+                state["answered_alter_context"] = True
+                return rpce.build_bind_ack(a["results"], ptype=rpce.ALTER_CONTEXT_RESP, flags=a["flags"], sec_addr="", max_xmit=a["max_xmit"],
+                                           max_recv=a["max_recv"], assoc=a["assoc"], auth=None, call_id=call_id)
+            return None
+        if kind in ("connect-flap", "no-credential"):
             # (the connection fault itself is injected by the world, see run()); whoever answers an *unauthenticated* request
             # on the key service port is the adversary: it replaces the DC's fault / reply with its own cleartext Response
             if conn.port == 135 or len(data) < 16:
@@ -542,6 +570,10 @@ def run(case) -> dict:
                     return None
                 return super()._lookup(host, port)
 
+    if alter[0] == "no-credential":
+        # fault: the caller's credential cannot be acquired for the requested provider (the call must fail, not go on unauthenticated)
+        plan["cred_fault"] = alter[2]
+        state["applied"] = True
     if alter[0] == "epm-port-135":
         # the adversary owns the unauthenticated endpoint-mapper hop entirely: its mapper announces port 135 itself as the key
         # service endpoint and serves the ISD_KEY interface there, without any security context, with a GetKey reply of its own
@@ -578,12 +610,15 @@ def run(case) -> dict:
     if not state.get("applied"):
         raise common.HarnessError(f"adversary never got to act: {case} {out.brief()} {out.exc!r}")
     fired = {alter[0]: 1}
+    for k_ in ("answered_alter_context", "answered_request", "answered_cleartext_request"):
+        if state.get(k_):
+            probes["adversary_" + k_] = 1
     viol = None
     rk = tr.root_keys[0]
     adv_rk = adv_root_key(plan["root_keys"][0])
 
     def V(cond, detail):
-        what = alter[0] + ("-" + str(alter[1]) if alter[0] in ("strip", "lenfix", "mitm-handshake", "fragment", "connect-flap", "epm-port-135", "busy-fault") else "")
+        what = alter[0] + ("-" + str(alter[1]) if alter[0] in ("strip", "lenfix", "mitm-handshake", "fragment", "connect-flap", "epm-port-135", "busy-fault", "no-credential", "ntlm-flags") else "")
         return common.violation("C16", what, fl, cond, opname, "",
                                 f"{detail}; alteration={alter} ctx={ctxname} op={opname} outcome={out.brief()} {out.exc!r}")
 
@@ -641,7 +676,9 @@ class C16(common.Check):
             "pad_length / alloc_hint / auth level / auth type rewritten to {0,1,true+-1,true+-16,0xFFFF}; sealed stub substituted; sealed reply "
             "of an earlier connection replayed; handshake man-in-the-middle (security trailers removed from bind_ack / alter_context_resp, every "
             "later server PDU replaced by the adversary's cleartext Response); PFC_LAST_FRAG cleared on the sealed reply and a cleartext "
-            "continuation fragment appended; two requests on one connection through the raw client (first reply bit-flipped, second replaced by "
+            "continuation fragment appended; NegotiateFlags bits (SEAL, SIGN, KEY_EXCH, 128/56-bit, extended session security) cleared in the NTLM CHALLENGE of the bind_ack, the adversary then "
+            "answering the alter_context and the request in the server's place; fault: the credential for the requested provider cannot be acquired (context creation raises: stub, real NTLM with an unknown user, "
+            "Kerberos without the gssapi extras) while whoever answers an unauthenticated request on the key service port is the adversary; two requests on one connection through the raw client (first reply bit-flipped, second replaced by "
             "a cleartext forgery; a call with an empty stub whose reply is replaced; a 'server too busy' fault injected before a cleartext Response; an adversary mapper that announces port 135 itself as the key endpoint and serves GetKey there without any security context; first reply untouched, second replaced by the first one again); two or three caller threads protecting at the "
             "same time (sync API, deterministic thread scheduler biased to the instants after socket reads and unwraps) while the adversary answers "
             "the unauthenticated endpoint-mapper request of the later lookups with a cleartext Response carrying its own GetKey reply. Non-trivial = every case (each alters the reply); distinct = distinct tuple.")
@@ -650,7 +687,7 @@ class C16(common.Check):
                   "transport / entropy / clock": "simulated"}
     assumptions = ["outcome-based: a correct client may reject earlier or later or tolerate a change in an unprotected field, as long as the result equals the authentic one",
                    "pyspnego NTLM signs data_readonly buffers too, so 'header signing off' is only observable with StubCtx"]
-    required_fired = ("alter_strip", "alter_flip", "alter_lenfix", "alter_subst", "alter_replay", "alter_mitm-handshake", "alter_connect-flap", "alter_epm-port-135", "alter_busy-fault", "empty_stub_request", "alter_fragment", "alter_tworeq", "alter_tworeq_replay", "alter_threads", "thread_overlap", "epm_reply_replaced", "raw_request_level", "rejected")
+    required_fired = ("alter_strip", "alter_flip", "alter_lenfix", "alter_subst", "alter_replay", "alter_mitm-handshake", "alter_connect-flap", "alter_epm-port-135", "alter_busy-fault", "alter_no-credential", "alter_ntlm-flags", "empty_stub_request", "alter_fragment", "alter_tworeq", "alter_tworeq_replay", "alter_threads", "thread_overlap", "epm_reply_replaced", "raw_request_level", "rejected")
 
     def exhaustive(self, tier):
         return tier == "thorough"
@@ -678,6 +715,12 @@ class C16(common.Check):
                         out.append([ctxname, "p256", opname, fl, ["epm-port-135", kind]])
                         for status in (0x1C010014, 0x1C010003, 0x000006BB):  # server too busy / unknown interface / RPC_S_SERVER_TOO_BUSY
                             out.append([ctxname, "p256", opname, fl, ["busy-fault", kind, status]])
+                        if ctxname in ("stub-hs", "ntlm"):
+                            for variant in (("stub-raise",) if ctxname == "stub-hs" else ("ntlm-unknown-user", "kerberos-not-installed")):
+                                out.append([ctxname, "p256", opname, fl, ["no-credential", kind, variant]])
+                        if ctxname == "ntlm":
+                            for mask in (0x20, 0x10, 0x30, 0x40000000, 0x40000030, 0x20000000 | 0x80000000 | 0x20, 0x00080000 | 0x20):
+                                out.append([ctxname, "p256", opname, fl, ["ntlm-flags", kind, mask]])
                     for s in range(3):
                         out.append([ctxname, "p256", opname, fl, ["subst", s]])
                     base = baseline(ctxname, "p256", opname, fl)
